@@ -159,6 +159,22 @@ def mutate(rng, b, v):
             out[26:42] = hostile
             return "hostile-bytes", "calling-ae", bytes(out)
         i = bytes(out).find(b"1.2.840")
+        if i > 2 and rng.random() < 0.35:
+            # the whole UID field re-written in another text encoding (what a peer with a different default codec sends); only
+            # decodable when _config.CODECS names such a fallback
+            ln = int.from_bytes(out[i - 2:i], "big")
+            if 4 <= ln <= 64 and i + ln <= len(out):
+                how = rng.choice(["utf-16-be-bom", "ebcdic", "latin-1-tail"])
+                if how == "utf-16-be-bom" and ln % 2 == 0:
+                    txt = ("1.2." + "".join(rng.choice("0123456789") for _ in range(64)))[:(ln - 2) // 2]
+                    out[i:i + ln] = b"\xfe\xff" + txt.encode("utf-16-be")
+                    return "hostile-bytes", "uid-utf16", bytes(out)
+                if how == "ebcdic":
+                    txt = ("1.2." + "".join(rng.choice("0123456789") for _ in range(64)))[:ln]
+                    out[i:i + ln] = txt.encode("cp037")
+                    return "hostile-bytes", "uid-ebcdic", bytes(out)
+                out[i + ln - 1] = 0xE9
+                return "hostile-bytes", "uid-latin1-tail", bytes(out)
         if i > 0:
             repl = rng.choice([b"1.2.\xe4", b"1..2   ", b"\0\0\0\0\0\0\0", b"1.2.840", b"abc.def", b"0001.02", b" 1.2.84"])
             out[i:i + 7] = repl
@@ -358,7 +374,9 @@ def layer_a(case, counters):
             pr = stability_problem(pdu)
             if pr:
                 pconf = "conformant-input" if not ps38.conformance_problems(raw) else "nonconformant-input"
-                viol.append({"key": "unstable-pdu|%s|%s" % (pconf, pr), "detail": "decoded from %s; reference says: %r" % (raw.hex()[:200], ps38.conformance_problems(raw)[:3])})
+                from pynetdicom import _config as _cfg
+                fb = "" if tuple(_cfg.CODECS) == ("ascii",) else "fallback-codecs|"
+                viol.append({"key": "%sunstable-pdu|%s|%s" % (fb, pconf, pr), "detail": "CODECS=%r; " % (tuple(_cfg.CODECS),) + "decoded from %s; reference says: %r" % (raw.hex()[:200], ps38.conformance_problems(raw)[:3])})
         LOCAL = ("Evt1", "Evt7", "Evt8", "Evt9", "Evt11", "Evt14", "Evt15")
         invalid_seen = False
         for pr in taps.State.fsm_problems:
@@ -436,6 +454,19 @@ def run_case(case):
         v, obs, inc = layer_a(case, counters)
         return {"key": sha(case["stream"]), "nontrivial": True, "sample": {"case": case, "observed": obs},
                 "violations": v, "counters": counters, "inconclusive": inc}
+    from pynetdicom import _config
+    prev_codecs = _config.CODECS
+    # a quarter of the blocks each: default codecs, and three fallback configurations the documentation allows
+    _config.CODECS = [prev_codecs, ("ascii", "utf-8"), ("ascii", "utf-16"), ("ascii", "cp037", "latin-1")][case["block"] % 4]
+    try:
+        return _run_block(case, counters, viols, keys, sample, inconc)
+    finally:
+        _config.CODECS = prev_codecs
+
+
+def _run_block(case, counters, viols, keys, sample, inconc):
+    from pynetdicom import _config
+    counters["blocks_codecs_%s" % "+".join(_config.CODECS)] = 1
     rng = rng_for(case["seed"], PID, case["block"])
     n_a = 20 if case["tier"] == "quick" else 60
     n_b = 1000 if case["tier"] == "quick" else 4000
